@@ -393,7 +393,7 @@ pub fn run(n: usize, spec_path: &str, out_path: &str, watchdog_s: u64) {
         }
         dump_events(&mut out, &scn);
         let _ = out.flush();
-        if !flags.is_empty() && kind != "faulty" {
+        if flags.iter().any(|f| !f.starts_with("k=")) && kind != "faulty" {
             flagged += 1;
             if flagged >= 2 {
                 // the violation is on record; do not wait out more watchdogs
